@@ -1,9 +1,392 @@
 package main
 
-// replay.go — counterexample extraction and replay on the real code (go test -overlay).
+// replay.go — counterexample extraction (candidate model from the quantifier-stripped script via
+// the z3 python API) and replay on the real code with `go test -overlay` (nothing is written to /repo).
 
-func candidateModel(j *Job) (map[string]any, bool) { return nil, false }
+import (
+	"bytes"
+	"context"
+	"encoding/json"
+	"fmt"
+	"go/types"
+	"os"
+	"os/exec"
+	"path/filepath"
+	"sort"
+	"strconv"
+	"strings"
+	"time"
+
+	"golang.org/x/tools/go/ssa"
+)
+
+func paramKind(m *Model, t types.Type) (kind string, sort Sort, ok bool) {
+	t = types.Unalias(t)
+	switch u := t.Underlying().(type) {
+	case *types.Basic:
+		switch {
+		case u.Info()&types.IsString != 0:
+			return "str", SStr, true
+		case u.Info()&types.IsInteger != 0:
+			return "int", SInt, true
+		case u.Info()&types.IsBoolean != 0:
+			return "bool", SBool, true
+		}
+	case *types.Interface:
+		if u.NumMethods() == 0 {
+			return "any", SAny, true
+		}
+	case *types.Signature:
+		return "func", SInt, true
+	case *types.Slice:
+		ek, _, ok := paramKind(m, u.Elem())
+		if ok && (ek == "str" || ek == "any" || ek == "int") {
+			return "slice:" + ek, SSlice, true
+		}
+	case *types.Map:
+		kk, _, ok1 := paramKind(m, u.Key())
+		vk, _, ok2 := paramKind(m, u.Elem())
+		if ok1 && ok2 && kk == "str" && (vk == "str" || vk == "any") {
+			return "map:" + vk, SInt, true
+		}
+	}
+	return "", "", false
+}
+
+// strippedScript: drop every assumed fact that contains a quantifier (sound weakening of the
+// assumptions: a model of the result is only a candidate)
+func strippedScript(full string) string {
+	var b strings.Builder
+	lines := strings.Split(full, "\n")
+	for i, l := range lines {
+		if strings.HasPrefix(l, "(assert ") && strings.Contains(l, "(forall ") {
+			// keep the negated goal (last assert before check-sat)
+			isGoal := i+2 < len(lines) && strings.HasPrefix(lines[i+1], "(check-sat)")
+			if !isGoal {
+				continue
+			}
+		}
+		b.WriteString(l)
+		b.WriteByte('\n')
+	}
+	return b.String()
+}
+
+func candidateModel(j *Job) (map[string]any, bool) {
+	c := j.Ctx
+	fn := c.F
+	if fn.Parent() != nil || len(fn.FreeVars) > 0 {
+		return map[string]any{"reason": "closure: not callable from a test"}, false
+	}
+	type root struct {
+		Name string `json:"name"`
+		Term string `json:"term"`
+		Kind string `json:"kind"`
+		Sort string `json:"sort"`
+	}
+	var roots []root
+	for i, p := range fn.Params {
+		if i == 0 && fn.Signature.Recv() != nil {
+			if _, isPtr := types.Unalias(p.Type()).Underlying().(*types.Pointer); isPtr {
+				continue // pointer receivers are built as zero values
+			}
+		}
+		k, s, ok := paramKind(c.M, p.Type())
+		if !ok {
+			return map[string]any{"reason": "parameter " + p.Name() + " of type " + p.Type().String() + " is not concretisable"}, false
+		}
+		if k == "func" {
+			continue // replayed with a function returning zero values
+		}
+		roots = append(roots, root{p.Name(), c.vals[p].T, k, string(s)})
+	}
+	heaps := map[string]map[string]string{}
+	for hn, term := range c.entry {
+		if strings.HasPrefix(hn, "S|") || strings.HasPrefix(hn, "M|") || strings.HasPrefix(hn, "D|") {
+			heaps[hn] = map[string]string{"term": term, "sort": string(c.heapSort(hn))}
+		}
+	}
+	req := map[string]any{"script": strippedScript(j.Script()), "roots": roots, "heaps": heaps}
+	in, _ := json.Marshal(req)
+	ctx, cancel := context.WithTimeout(context.Background(), 30*time.Second)
+	defer cancel()
+	exe, _ := os.Executable()
+	py := filepath.Join(filepath.Dir(filepath.Dir(exe)), "engine", "modelquery.py")
+	cmd := exec.CommandContext(ctx, "python3-vt", py)
+	cmd.Stdin = bytes.NewReader(in)
+	var out bytes.Buffer
+	cmd.Stdout = &out
+	cmd.Stderr = &out
+	if err := cmd.Run(); err != nil {
+		return map[string]any{"reason": "modelquery failed: " + err.Error(), "output": truncate(out.String(), 500)}, false
+	}
+	var res map[string]any
+	if err := json.Unmarshal(out.Bytes(), &res); err != nil {
+		return map[string]any{"reason": "modelquery output unparsable", "output": truncate(out.String(), 500)}, false
+	}
+	if res["status"] != "sat" {
+		return res, false
+	}
+	return res, true
+}
+
+func bytesOf(v any) string {
+	arr, _ := v.([]any)
+	b := make([]byte, 0, len(arr))
+	for _, x := range arr {
+		f, _ := x.(float64)
+		b = append(b, byte(int(f)))
+	}
+	return string(b)
+}
+
+func renderAny(v any, depth int) string {
+	m, ok := v.(map[string]any)
+	if !ok || depth > 4 {
+		return "nil"
+	}
+	switch m["t"] {
+	case "nil":
+		return "nil"
+	case "bool":
+		if b, _ := m["v"].(bool); b {
+			return "true"
+		}
+		return "false"
+	case "int":
+		f, _ := m["v"].(float64)
+		return fmt.Sprintf("int(%d)", int64(f))
+	case "float":
+		return "float64(0.5)"
+	case "str":
+		return strconv.Quote(bytesOf(m["v"]))
+	case "map":
+		ents, ok := m["v"].([]any)
+		if !ok {
+			return "map[string]any(nil)"
+		}
+		var ps []string
+		seen := map[string]bool{}
+		for _, e := range ents {
+			kv, _ := e.([]any)
+			if len(kv) != 2 {
+				continue
+			}
+			k := bytesOf(kv[0])
+			if seen[k] {
+				continue
+			}
+			seen[k] = true
+			ps = append(ps, strconv.Quote(k)+": "+renderAny(kv[1], depth+1))
+		}
+		return "map[string]any{" + strings.Join(ps, ", ") + "}"
+	case "mapaa":
+		return "map[any]any{}"
+	case "list":
+		els, ok := m["v"].([]any)
+		if !ok {
+			return "[]any(nil)"
+		}
+		var ps []string
+		for _, e := range els {
+			ps = append(ps, renderAny(e, depth+1))
+		}
+		return "[]any{" + strings.Join(ps, ", ") + "}"
+	}
+	return "struct{ X int }{1}"
+}
+
+func renderValue(kind string, v any) string {
+	switch {
+	case kind == "str":
+		return strconv.Quote(bytesOf(v))
+	case kind == "int":
+		f, _ := v.(float64)
+		return fmt.Sprintf("%d", int64(f))
+	case kind == "bool":
+		b, _ := v.(bool)
+		return fmt.Sprintf("%v", b)
+	case kind == "any":
+		return renderAny(v, 0)
+	case strings.HasPrefix(kind, "slice:"):
+		els, ok := v.([]any)
+		if !ok {
+			return "nil"
+		}
+		var ps []string
+		for _, e := range els {
+			ps = append(ps, renderValue(kind[6:], e))
+		}
+		return "{" + strings.Join(ps, ", ") + "}"
+	case strings.HasPrefix(kind, "map:"):
+		ents, ok := v.([]any)
+		if !ok {
+			return "nil"
+		}
+		var ps []string
+		seen := map[string]bool{}
+		for _, e := range ents {
+			kv, _ := e.([]any)
+			if len(kv) != 2 {
+				continue
+			}
+			k := bytesOf(kv[0])
+			if seen[k] {
+				continue
+			}
+			seen[k] = true
+			ps = append(ps, strconv.Quote(k)+": "+renderValue(kind[4:], kv[1]))
+		}
+		return "{" + strings.Join(ps, ", ") + "}"
+	}
+	return "nil"
+}
 
 func tryReplay(e *Engine, j *Job, model map[string]any) map[string]any {
-	return map[string]any{"confirmed": false, "reason": "replay not available for this obligation kind"}
+	c := j.Ctx
+	fn := c.F
+	vals, _ := model["values"].(map[string]any)
+	pkg := fn.Pkg
+	if pkg == nil {
+		return map[string]any{"confirmed": false, "reason": "no package"}
+	}
+	imports := map[string]string{}
+	qual := func(p *types.Package) string {
+		if p == pkg.Pkg {
+			return ""
+		}
+		imports[p.Path()] = p.Name()
+		return p.Name()
+	}
+	var decls []string
+	var args []string
+	recvExpr := ""
+	for i, p := range fn.Params {
+		ts := types.TypeString(p.Type(), qual)
+		if i == 0 && fn.Signature.Recv() != nil {
+			if pt, isPtr := types.Unalias(p.Type()).Underlying().(*types.Pointer); isPtr {
+				decls = append(decls, fmt.Sprintf("\trecv := new(%s)", types.TypeString(pt.Elem(), qual)))
+				recvExpr = "recv"
+				continue
+			}
+		}
+		k, _, _ := paramKind(c.M, p.Type())
+		lit := renderValue(k, vals[p.Name()])
+		var init string
+		switch {
+		case strings.HasPrefix(k, "slice:") || strings.HasPrefix(k, "map:"):
+			if lit == "nil" {
+				init = fmt.Sprintf("\tvar a%d %s", i, ts)
+			} else {
+				init = fmt.Sprintf("\tvar a%d %s = %s%s", i, ts, ts, lit)
+			}
+		case k == "any":
+			init = fmt.Sprintf("\tvar a%d any = %s", i, lit)
+		case k == "func":
+			sig := types.Unalias(p.Type()).Underlying().(*types.Signature)
+			var ps, rs, zs []string
+			for q := 0; q < sig.Params().Len(); q++ {
+				ps = append(ps, "_ "+types.TypeString(sig.Params().At(q).Type(), qual))
+			}
+			for q := 0; q < sig.Results().Len(); q++ {
+				rs = append(rs, fmt.Sprintf("r%d %s", q, types.TypeString(sig.Results().At(q).Type(), qual)))
+				zs = append(zs, fmt.Sprintf("r%d", q))
+			}
+			body := "return"
+			_ = zs
+			init = fmt.Sprintf("\tvar a%d %s = func(%s) (%s) { %s }", i, ts, strings.Join(ps, ", "), strings.Join(rs, ", "), body)
+		default:
+			init = fmt.Sprintf("\tvar a%d %s = %s(%s)", i, ts, ts, lit)
+		}
+		decls = append(decls, init)
+		if i == 0 && fn.Signature.Recv() != nil {
+			recvExpr = fmt.Sprintf("a%d", i)
+			continue
+		}
+		args = append(args, fmt.Sprintf("a%d", i))
+	}
+	call := fn.Name() + "(" + strings.Join(args, ", ") + ")"
+	if fn.Signature.Variadic() && len(args) > 0 {
+		call = fn.Name() + "(" + strings.Join(args, ", ") + "...)"
+	}
+	if recvExpr != "" {
+		call = recvExpr + "." + call
+	}
+	var imps []string
+	for p, n := range imports {
+		imps = append(imps, fmt.Sprintf("\t%s %q", n, p))
+	}
+	sort.Strings(imps)
+	src := fmt.Sprintf(`package %s
+
+import (
+	"testing"
+%s
+)
+
+// generated by govc: replay of the candidate counterexample for obligation
+// %s
+func TestVerifReplay(t *testing.T) {
+	defer func() {
+		if r := recover(); r != nil {
+			t.Logf("REPLAY-PANIC: %%v", r)
+			t.Fail()
+		}
+	}()
+%s
+	%s
+	t.Logf("REPLAY-NO-PANIC")
 }
+`, pkg.Pkg.Name(), strings.Join(imps, "\n"), j.O.Name, strings.Join(decls, "\n"), call)
+	// overlay
+	dir := ""
+	for _, p := range e.Pkgs {
+		if p.PkgPath == pkg.Pkg.Path() && len(p.GoFiles) > 0 {
+			dir = filepath.Dir(p.GoFiles[0])
+		}
+	}
+	if dir == "" {
+		return map[string]any{"confirmed": false, "reason": "package directory not found", "test": src}
+	}
+	tmp, err := os.MkdirTemp("", "govc-replay")
+	if err != nil {
+		return map[string]any{"confirmed": false, "reason": err.Error()}
+	}
+	defer os.RemoveAll(tmp)
+	tf := filepath.Join(tmp, "replay_test.go")
+	os.WriteFile(tf, []byte(src), 0o644)
+	ov, _ := json.Marshal(map[string]any{"Replace": map[string]string{filepath.Join(dir, "zz_verif_replay_test.go"): tf}})
+	of := filepath.Join(tmp, "ov.json")
+	os.WriteFile(of, ov, 0o644)
+	ctx, cancel := context.WithTimeout(context.Background(), 120*time.Second)
+	defer cancel()
+	cmd := exec.CommandContext(ctx, "go", "test", "-overlay", of, "-vet=off", "-count=1", "-timeout", "60s", "-run", "^TestVerifReplay$", "-v", ".")
+	cmd.Dir = dir
+	cmd.Env = append(os.Environ(), "GOFLAGS=-mod=mod", "GOPROXY=off", "GOSUMDB=off", "GOTOOLCHAIN=local")
+	var out bytes.Buffer
+	cmd.Stdout = &out
+	cmd.Stderr = &out
+	cmd.Run()
+	text := out.String()
+	res := map[string]any{"test": src, "go_test_output": truncate(text, 3000)}
+	isK1 := k1Kinds[j.O.Kind]
+	switch {
+	case strings.Contains(text, "REPLAY-PANIC"):
+		res["observed"] = "panic"
+		res["confirmed"] = isK1
+		if !isK1 {
+			res["reason"] = "a panic was observed but the failed obligation is a functional clause"
+		}
+	case strings.Contains(text, "REPLAY-NO-PANIC"):
+		res["observed"] = "no panic"
+		res["confirmed"] = false
+		res["reason"] = "candidate model does not reproduce on the real code (abstraction or spurious model)"
+	default:
+		res["observed"] = "test did not run"
+		res["confirmed"] = false
+		res["reason"] = "generated test did not compile or timed out"
+	}
+	return res
+}
+
+var _ = ssa.NewProgram
